@@ -6,7 +6,7 @@ expected quick checks report a violation?  Writes /verif/sensitivity/results.jso
 import json, os, signal, subprocess, sys, time
 
 V = '/verif'
-WT = '/tmp/own'
+WT = '/tmp/own2'
 
 
 class R:
